@@ -95,3 +95,202 @@ Example C03_example :
   r_status (run (with_answers c Manual [[122]; [73; 71]]) f28_plan [] f28_fs) = 0%Z /\
   r_prompts (run (with_answers c Manual [[122]; [73; 71]]) f28_plan [] f28_fs) = 2%nat.
 Proof. vm_compute. repeat split. Qed.
+
+(* ==== plan level (name mode, real run, no fault, selected files = distinct existing non-directories) ==== *)
+(* proofs and definitions: Pipe/StrategyExact.v.  [conflict s plan f t] = the destination of (f, t) differs from its
+   source and was present in the initial tree or is generated for another entry as well;
+   [dests_plain s plan] = no symbolic link can lie at a generated destination (there initially, or renamed there) and
+   the paths are short enough for the bounded walk; [no_dir_dest] / [no_chain] = the two restrictions of the override
+   clause (no destination an existing directory; no source key another entry's destination key, finding F33). *)
+From Tempren Require Import FS.WfCheck Pipe.PlanExact Pipe.StrategyExact.
+
+(* (a) stop ends with DestinationAlreadyExistsError ONLY on a real conflict; the entry named is an entry of the plan *)
+Theorem C03_stop_only_on_conflict : forall c plan cwd s,
+  c_mode c = MName -> c_strategy c = Stop -> c_dry c = false -> c_fault c = None -> c_var c = fixed ->
+  WF s -> selected_ok s plan ->
+  r_error (run c plan cwd s) = Some ExDestExists ->
+  exists f t, In (f, RText t) plan /\ dst_key f t <> src_key f /\
+    (lookup s (dst_key f t) <> None \/
+     exists f' t', In (f', RText t') plan /\ src_key f' <> src_key f /\ dst_key f' t' = dst_key f t).
+Proof. exact stop_only_on_conflict_thm. Qed.
+Print Assumptions C03_stop_only_on_conflict.
+
+(* the same seen from the second pass: it can only fail with that error, at the backlog entry of a plan entry
+   whose destination conflicts *)
+Theorem C03_stop_error_names_plan_entry : forall c plan cwd s w1 cwd1 bl w2 cwd2 e,
+  c_mode c = MName -> c_strategy c = Stop -> c_dry c = false -> c_fault c = None -> c_var c = fixed ->
+  WF s -> selected_ok s plan ->
+  first_pass c plan (init_world s (c_answers c)) cwd [] = (w1, cwd1, bl, None) ->
+  second_pass c bl w1 cwd1 = (w2, cwd2, Some e) ->
+  e = ExDestExists /\
+  exists f t, In (pf_dir f, pf_rel f, new_path f t) bl /\ In (f, RText t) plan /\ conflict s plan f t.
+Proof. exact stop_error_names_plan_entry_thm. Qed.
+Print Assumptions C03_stop_error_names_plan_entry.
+
+(* contrapositive: destinations absent from the initial tree and pairwise distinct => never that error *)
+Theorem C03_stop_no_conflict_no_dest_error : forall c plan cwd s,
+  c_mode c = MName -> c_strategy c = Stop -> c_dry c = false -> c_fault c = None -> c_var c = fixed ->
+  WF s -> selected_ok s plan ->
+  (forall f t, In (f, RText t) plan -> dst_key f t <> src_key f -> lookup s (dst_key f t) = None) ->
+  (forall f t f' t', In (f, RText t) plan -> In (f', RText t') plan ->
+     dst_key f t <> src_key f -> dst_key f t = dst_key f' t' -> src_key f = src_key f') ->
+  r_error (run c plan cwd s) <> Some ExDestExists.
+Proof. exact stop_no_conflict_no_dest_error_thm. Qed.
+Print Assumptions C03_stop_no_conflict_no_dest_error.
+
+Theorem C03_stop_all_free_no_dest_error : forall c plan cwd s,
+  c_mode c = MName -> c_strategy c = Stop -> c_dry c = false -> c_fault c = None -> c_var c = fixed ->
+  WF s -> selected_ok s plan -> all_free s plan ->
+  r_error (run c plan cwd s) <> Some ExDestExists.
+Proof. exact stop_all_free_no_dest_error_thm. Qed.
+Print Assumptions C03_stop_all_free_no_dest_error.
+
+(* (b) ignore.  _partial: [selected_ok] alone is NOT enough for status 0 (see C03_ignore_exit0_without_plain_dests_refuted):
+   Pipeline.execute resolves the destination before the renamer sees the conflict, so a symbolic link lying at a
+   generated destination can end the run with InvalidDestinationError; [dests_plain] excludes exactly that *)
+Theorem C03_ignore_exit0_partial : forall c plan cwd s,
+  c_mode c = MName -> c_strategy c = Ignore -> c_dry c = false -> c_fault c = None -> c_var c = fixed ->
+  WF s -> selected_ok s plan -> dests_plain s plan ->
+  r_error (run c plan cwd s) = None /\ r_status (run c plan cwd s) = 0%Z.
+Proof. exact ignore_exit0_thm. Qed.
+Print Assumptions C03_ignore_exit0_partial.
+
+(* _partial only in that "the run reported no error" is a premise (it follows from [dests_plain] by the theorem above) *)
+Theorem C03_ignore_free_renamed_partial : forall c plan cwd s,
+  c_mode c = MName -> c_strategy c = Ignore -> c_dry c = false -> c_fault c = None -> c_var c = fixed ->
+  WF s -> selected_ok s plan ->
+  r_error (run c plan cwd s) = None ->
+  forall f t, In (f, RText t) plan ->
+    lookup s (dst_key f t) = None ->
+    (forall f' t', In (f', RText t') plan -> dst_key f' t' = dst_key f t -> src_key f' = src_key f) ->
+    lookup (r_final (run c plan cwd s)) (dst_key f t) = lookup s (src_key f) /\
+    ((forall f' t', In (f', RText t') plan -> dst_key f' t' <> src_key f) ->
+     lookup (r_final (run c plan cwd s)) (src_key f) = None).
+Proof. exact ignore_free_renamed_thm. Qed.
+Print Assumptions C03_ignore_free_renamed_partial.
+
+(* an entry that is not at its destination at the end had a conflicting destination (no further premise) *)
+Theorem C03_ignore_not_renamed_had_conflict_partial : forall c plan cwd s,
+  c_mode c = MName -> c_strategy c = Ignore -> c_dry c = false -> c_fault c = None -> c_var c = fixed ->
+  WF s -> selected_ok s plan ->
+  r_error (run c plan cwd s) = None ->
+  forall f t, In (f, RText t) plan ->
+    lookup (r_final (run c plan cwd s)) (dst_key f t) <> lookup s (src_key f) ->
+    dst_key f t <> src_key f /\
+    (lookup s (dst_key f t) <> None \/
+     exists f' t', In (f', RText t') plan /\ src_key f' <> src_key f /\ dst_key f' t' = dst_key f t).
+Proof. exact ignore_not_renamed_had_conflict_thm. Qed.
+Print Assumptions C03_ignore_not_renamed_had_conflict_partial.
+
+(* _partial: "still at its source key" is read off the tree, so an entry with an EQUAL node (a second name of the same
+   file) that is renamed onto the vacated source key must be excluded (C03_ignore_left_without_twin_clause_refuted) *)
+Theorem C03_ignore_left_had_conflict_partial : forall c plan cwd s,
+  c_mode c = MName -> c_strategy c = Ignore -> c_dry c = false -> c_fault c = None -> c_var c = fixed ->
+  WF s -> selected_ok s plan ->
+  r_error (run c plan cwd s) = None ->
+  forall f t, In (f, RText t) plan -> dst_key f t <> src_key f ->
+    lookup (r_final (run c plan cwd s)) (src_key f) = lookup s (src_key f) ->
+    (forall f' t', In (f', RText t') plan -> dst_key f' t' = src_key f -> lookup s (src_key f') <> lookup s (src_key f)) ->
+    lookup s (dst_key f t) <> None \/
+    exists f' t', In (f', RText t') plan /\ src_key f' <> src_key f /\ dst_key f' t' = dst_key f t.
+Proof. exact ignore_left_had_conflict_thm. Qed.
+Print Assumptions C03_ignore_left_had_conflict_partial.
+
+(* (c) override, restricted as the property says and to plans without chains (F33); _partial: [dests_plain] as for ignore *)
+Theorem C03_override_exit0_partial : forall c plan cwd s,
+  c_mode c = MName -> c_strategy c = Override -> c_dry c = false -> c_fault c = None -> c_var c = fixed ->
+  WF s -> selected_ok s plan -> no_dir_dest s plan -> no_chain plan -> dests_plain s plan ->
+  r_error (run c plan cwd s) = None /\ r_status (run c plan cwd s) = 0%Z.
+Proof. exact override_exit0_thm. Qed.
+Print Assumptions C03_override_exit0_partial.
+
+Theorem C03_override_holds_source_partial : forall c plan cwd s,
+  c_mode c = MName -> c_strategy c = Override -> c_dry c = false -> c_fault c = None -> c_var c = fixed ->
+  WF s -> selected_ok s plan -> no_dir_dest s plan -> no_chain plan -> dests_plain s plan ->
+  forall f t m, In (f, RText t) plan ->
+    lookup s (dst_key f t) = Some m -> is_dir_node m = false ->
+    (forall f' r', In (f', r') plan -> src_key f' <> dst_key f t) ->
+    (forall f' t', In (f', RText t') plan -> dst_key f' t' = dst_key f t -> src_key f' = src_key f) ->
+    r_status (run c plan cwd s) = 0%Z /\
+    lookup (r_final (run c plan cwd s)) (dst_key f t) = lookup s (src_key f).
+Proof. exact override_holds_source_thm. Qed.
+Print Assumptions C03_override_holds_source_partial.
+
+(* more generally: whatever the destination held, if exactly one entry generates it, it holds that entry's node *)
+Theorem C03_override_unique_target : forall c plan cwd s,
+  c_mode c = MName -> c_strategy c = Override -> c_dry c = false -> c_fault c = None -> c_var c = fixed ->
+  WF s -> selected_ok s plan -> no_dir_dest s plan -> no_chain plan ->
+  r_error (run c plan cwd s) = None ->
+  forall f t, In (f, RText t) plan -> dst_key f t <> src_key f ->
+    (forall f' t', In (f', RText t') plan -> dst_key f' t' = dst_key f t -> src_key f' = src_key f) ->
+    lookup (r_final (run c plan cwd s)) (dst_key f t) = lookup s (src_key f).
+Proof. exact override_unique_target_thm. Qed.
+Print Assumptions C03_override_unique_target.
+
+(* ---- why the restrictions are there ---- *)
+(* F33 (corpus/C03/F33_override_chain.json): in/b -> x, in/a -> b under override; all other hypotheses hold *)
+Theorem C03_override_holds_source_without_no_chain_refuted :
+  ~ (forall c plan cwd s,
+       c_mode c = MName -> c_strategy c = Override -> c_dry c = false -> c_fault c = None -> c_var c = fixed ->
+       WF s -> selected_ok s plan -> no_dir_dest s plan -> dests_plain s plan ->
+       forall f t m, In (f, RText t) plan ->
+         lookup s (dst_key f t) = Some m -> is_dir_node m = false ->
+         (forall f' r', In (f', r') plan -> src_key f' <> dst_key f t) ->
+         (forall f' t', In (f', RText t') plan -> dst_key f' t' = dst_key f t -> src_key f' = src_key f) ->
+         r_status (run c plan cwd s) = 0%Z /\
+         lookup (r_final (run c plan cwd s)) (dst_key f t) = lookup s (src_key f)).
+Proof. exact override_holds_source_without_no_chain_refuted. Qed.
+Print Assumptions C03_override_holds_source_without_no_chain_refuted.
+
+Example C03_F33_replay :
+  let r := run (f33_cfg fixed false) f33_plan [] f33_fs in
+  r_status r = 0%Z /\ selected_okb f33_fs f33_plan = true /\ wf_b f33_fs = true /\
+  no_dir_dest_b f33_fs f33_plan = true /\ no_chain_b f33_plan = false /\
+  lookup f33_fs (src_key f33_b) = Some (NFile 2) /\ lookup f33_fs (dst_key f33_b [120]) = Some (NFile 3) /\
+  lookup (r_final r) (dst_key f33_b [120]) = Some (NFile 1).
+Proof. vm_compute. repeat split. Qed.
+
+Theorem C03_ignore_exit0_without_plain_dests_refuted :
+  ~ (forall c plan cwd s,
+       c_mode c = MName -> c_strategy c = Ignore -> c_dry c = false -> c_fault c = None -> c_var c = fixed ->
+       WF s -> selected_ok s plan -> r_error (run c plan cwd s) = None).
+Proof. exact ignore_exit0_without_plain_dests_refuted. Qed.
+Print Assumptions C03_ignore_exit0_without_plain_dests_refuted.
+
+Theorem C03_ignore_left_without_twin_clause_refuted :
+  ~ (forall c plan cwd s,
+       c_mode c = MName -> c_strategy c = Ignore -> c_dry c = false -> c_fault c = None -> c_var c = fixed ->
+       WF s -> selected_ok s plan -> r_error (run c plan cwd s) = None ->
+       forall f t, In (f, RText t) plan -> dst_key f t <> src_key f ->
+         lookup (r_final (run c plan cwd s)) (src_key f) = lookup s (src_key f) ->
+         lookup s (dst_key f t) <> None \/
+         exists f' t', In (f', RText t') plan /\ src_key f' <> src_key f /\ dst_key f' t' = dst_key f t).
+Proof. exact ignore_left_had_conflict_without_twin_clause_refuted. Qed.
+Print Assumptions C03_ignore_left_without_twin_clause_refuted.
+
+(* ---- non-vacuity: in/a -> A (free), in/b -> x (in/x exists), in/c -> y and in/d -> y (generated twice) ---- *)
+Example C03_plan_level_example :
+  let ri := run (sx_cfg Ignore) nv_plan [] nv_fs in
+  let rs := run (sx_cfg Stop) nv_plan [] nv_fs in
+  selected_okb nv_fs nv_plan = true /\ wf_b nv_fs = true /\ no_links_b nv_fs = true /\ short_b nv_plan = true /\
+  r_error ri = None /\ r_status ri = 0%Z /\
+  lookup (r_final ri) [[105;110]; [65]] = Some (NFile 1) /\ lookup (r_final ri) [[105;110]; [97]] = None /\
+  lookup (r_final ri) [[105;110]; [98]] = Some (NFile 2) /\ lookup (r_final ri) [[105;110]; [120]] = Some (NFile 5) /\
+  lookup (r_final ri) [[105;110]; [121]] = Some (NFile 3) /\ lookup (r_final ri) [[105;110]; [99]] = None /\
+  lookup (r_final ri) [[105;110]; [100]] = Some (NFile 4) /\
+  r_error rs = Some ExDestExists /\ r_status rs = 1%Z.
+Proof. vm_compute. repeat split. Qed.
+
+(* the theorems apply to it: ignore reports no error, the free entry is renamed, the two others had conflicts;
+   stop names a conflicting entry *)
+Example C03_plan_level_example_by_theorems :
+  r_error (run (sx_cfg Ignore) nv_plan [] nv_fs) = None /\
+  lookup (r_final (run (sx_cfg Ignore) nv_plan [] nv_fs)) (dst_key nv_a [65]) = lookup nv_fs (src_key nv_a) /\
+  conflict nv_fs nv_plan nv_b [120] /\ conflict nv_fs nv_plan nv_d [121] /\
+  exists f t, In (f, RText t) nv_plan /\ dst_key f t <> src_key f /\
+    (lookup nv_fs (dst_key f t) <> None \/
+     exists f' t', In (f', RText t') nv_plan /\ src_key f' <> src_key f /\ dst_key f' t' = dst_key f t).
+Proof.
+  split; [exact nv_ignore_exit0_by_theorem|]. split; [exact nv_free_by_theorem|].
+  split; [exact (proj1 nv_conflicts_by_theorem)|]. split; [exact (proj2 nv_conflicts_by_theorem) | exact nv_stop_by_theorem].
+Qed.
